@@ -1,0 +1,134 @@
+//! Monitors that run inside the interpreter loop. Only compiled with the
+//! `verif` feature.
+
+use super::Vm;
+use crate::{byte_code::ByteCode, fiber::Fiber, verif};
+use laythe_core::Ref;
+use std::sync::atomic::Ordering::Relaxed;
+
+impl Vm {
+  /// Runs before every instruction is decoded
+  pub(super) unsafe fn verif_pre_op(&mut self) { unsafe {
+    let steps = verif::STEPS.fetch_add(1, Relaxed) + 1;
+    let budget = verif::STEP_BUDGET.load(Relaxed);
+    if budget != 0 && steps > budget {
+      eprintln!("VERIF-STEPS budget {} exceeded", budget);
+      std::process::exit(96);
+    }
+
+    if !verif::STACK_MONITOR.load(Relaxed) {
+      return;
+    }
+    verif::STACK_CHECKS.fetch_add(1, Relaxed);
+
+    let fun = self.current_fun;
+    let instructions = fun.chunk().instructions();
+    let start = instructions.as_ptr();
+    if self.ip < start || self.ip >= start.add(instructions.len()) {
+      verif::violation(format!(
+        "stack: instruction pointer outside the chunk of {} (len {})",
+        fun.name(),
+        instructions.len()
+      ));
+      eprintln!("VERIF-IP outside chunk");
+      std::process::exit(95);
+    }
+
+    let op = *self.ip;
+    verif::count_op(op);
+
+    let (depth, room) = self.fiber.verif_depth();
+    let params = fun.parameter_count() as isize;
+    let limit = 1 + params + fun.max_slots() as isize;
+    verif::MAX_DEPTH_SEEN.fetch_max(depth.max(0) as u64, Relaxed);
+
+    if room < 0 {
+      verif::violation(format!(
+        "stack: top is {} slots beyond the allocation in {} at offset {}",
+        -room,
+        fun.name(),
+        self.ip.offset_from(start)
+      ));
+    }
+    if depth > limit {
+      verif::violation(format!(
+        "stack: depth {} exceeds reservation {} in {} at offset {}",
+        depth,
+        limit,
+        fun.name(),
+        self.ip.offset_from(start)
+      ));
+    }
+    if depth < 1 + params {
+      verif::violation(format!(
+        "stack: depth {} below callee and parameters {} in {} at offset {}",
+        depth,
+        1 + params,
+        fun.name(),
+        self.ip.offset_from(start)
+      ));
+    }
+
+    if op == ByteCode::Return as u8 {
+      let live = self.fiber.verif_frame_handlers();
+      if live != 0 {
+        verif::violation(format!(
+          "handler: {} handler(s) of {} still active at its return (offset {})",
+          live,
+          fun.name(),
+          self.ip.offset_from(start)
+        ));
+      }
+      if depth < 2 + params {
+        verif::violation(format!(
+          "stack: return without a value in {} at offset {} (depth {})",
+          fun.name(),
+          self.ip.offset_from(start),
+          depth
+        ));
+      }
+    }
+  }}
+
+  /// Runs when a handler is pushed with the depth the compiler recorded
+  pub(super) fn verif_push_handler(&mut self, slot_depth: usize) {
+    verif::HANDLER_PUSHES.fetch_add(1, Relaxed);
+    let (depth, _) = self.fiber.verif_depth();
+    if depth != slot_depth as isize {
+      verif::violation(format!(
+        "handler: recorded depth {} but live depth {} in {}",
+        slot_depth,
+        depth,
+        self.current_fun.name()
+      ));
+    }
+  }
+
+  pub(super) fn verif_switch(&mut self, to: Ref<Fiber>) {
+    verif::CONTEXT_SWITCHES.fetch_add(1, Relaxed);
+    verif::sched_event(format!(
+      "switch {}>{} q={}",
+      verif::small_id(self.fiber.verif_addr()),
+      verif::small_id(to.verif_addr()),
+      self.fiber_queue.len()
+    ));
+  }
+
+  pub(super) fn verif_queued(&mut self, fiber: Ref<Fiber>) {
+    verif::FIBERS_QUEUED.fetch_add(1, Relaxed);
+    verif::sched_event(format!(
+      "wake {} by {} state={}",
+      verif::small_id(fiber.verif_addr()),
+      verif::small_id(self.fiber.verif_addr()),
+      fiber.verif_state()
+    ));
+  }
+
+  pub(super) fn verif_deadlock(&mut self) {
+    verif::DEADLOCKS.fetch_add(1, Relaxed);
+    verif::sched_event(format!(
+      "deadlock at {}",
+      verif::small_id(self.fiber.verif_addr())
+    ));
+  }
+}
